@@ -216,15 +216,25 @@ class Replace(_Rebuild):
     def on_return(self, it, ret):
         st = it.st
         pv = self.passed(it)
-        st.check("P4:the-copy-is-rebuilt-once-through-the-validating-constructor", z3.BoolVal(pv is not None))
-        if pv is None:
-            return
-        has, val = pv
         k = st.fresh_val("name")
         st.instantiate_at(k)
         for dcx in st.ghost.get("$dictcomps", []):
             st.instantiate_at(st.simp(z3.Select(dcx["last"], k)))
         st.instantiate_at(st.simp(z3.Select(self.kp["pos"], k)))
+        if pv is None and not self.ctor_calls:
+            # no rebuild at all: acceptable exactly when the instance itself is handed back and every named
+            # attribute already holds *that very value* (same type included) - re-validation of a stored value
+            # is the identity (C04-P3), so the observable result equals the rebuilt copy.  Python-level `==`
+            # is not enough: 1 == 1.0 == True.
+            st.check("P4:the-instance-itself-is-returned-only-when-every-named-attribute-already-holds-exactly-the-given-value",
+                     z3.And(ret == self.obj, self.untouched(it),
+                            z3.Implies(z3.And(z3.Select(self.kp["has"], k), z3.Select(self.ap["has"], k)),
+                                       z3.And(z3.Select(self.sh0, k), z3.Select(self.kp["val"], k) == z3.Select(self.sv0, k)))))
+            return
+        st.check("P4:the-copy-is-rebuilt-once-through-the-validating-constructor", z3.BoolVal(pv is not None))
+        if pv is None:
+            return
+        has, val = pv
         st.check("P4:named-attributes-are-replaced-by-the-given-values-all-others-keep-their-current-value",
                  z3.And(z3.Select(has, k) == z3.Or(z3.Select(self.kp["has"], k), z3.Select(self.sh0, k)),
                         z3.Implies(z3.Select(self.kp["has"], k), z3.Select(val, k) == z3.Select(self.kp["val"], k)),
